@@ -211,3 +211,43 @@ def lin_data(rng, nx, nu, n_eps=2, radius=0.9, noise=0.02, n_min=12):
         blocks.append((l, np.hstack((x, u))))
     X = st.ref_combine(blocks, True)
     return X, {'n_inputs': nu, 'episode_feature': True}, A, B
+
+# ----------------------------------------------------------------------------- LmiDmdc family: problems posed on SVD factors
+
+DMDC_SIG = {0.0: [(0.5, 0.5), (1.0, 1.0), (1.5, 1.5), (2.0, 2.0)],
+            16.0: [(0.0, 4.0), (3.0, 5.0), (7.5, 8.5)],
+            0.5625: [(0.0, 0.75), (1.0, 1.25)]}
+
+
+def dmdc_factors(rng, rh=None, pu=None):
+    """dyadic stand-ins for the two truncated SVDs handed to the LmiDmdc* problems (not orthonormal: problem STRUCTURE
+    only), chosen so that the regularised singular values sqrt(sigma^2/q + alpha) are exactly representable"""
+    rh = rng.randint(1, 2) if rh is None else rh
+    pt = rh + rng.randint(0, 1)
+    pu = rng.randint(0, 2) if pu is None else pu
+    rt = rng.randint(1, min(3, pt + pu))
+    q = 4
+    alpha = rng.choice(sorted(DMDC_SIG))
+    ab = [rng.choice(DMDC_SIG[alpha]) for _ in range(rt)]
+    ch = [rng.choice([0.5, 1.0, 2.0, 2.5]) for _ in range(rh)]
+    return {'rh': rh, 'rt': rt, 'pt': pt, 'pu': pu, 'q': q, 'alpha': alpha,
+            'St': np.diag([a for a, _ in ab]), 'Str': np.diag([b for _, b in ab]), 'Sh': np.diag(ch),
+            'sig_tld': np.array([2 * a for a, _ in ab]),          # sigma / sqrt(q) = a
+            'sig_hat': np.array([2 * c for c in ch]),
+            'Qt': dyadic(rng, (pt + pu, rt), den=2), 'Qh': dyadic(rng, (pt, rh), den=2),
+            'Zt': dyadic(rng, (q, rt), den=2), 'Zh': dyadic(rng, (q, rh), den=2)}
+
+
+def dmdc_args(f):
+    return (f['Qt'], f['sig_tld'], f['Zt'], f['Qh'], f['sig_hat'], f['Zh'])
+
+
+def dmdc_line(f, W, Uh):
+    rh, rt, pt, pu = f['rh'], f['rt'], f['pt'], f['pu']
+    return (f"dmdc {rh} {rt} {pt} {pu} {f['q']} {mat_tok(W)} {mat_tok(Uh[:, :rh])} {mat_tok(Uh[:, rh:].reshape(rh, pu))} "
+            f"{mat_tok(f['Qh'])} {mat_tok(f['Qt'][:pt, :])} {mat_tok(f['Qt'][pt:, :].reshape(pu, rt))} {mat_tok(f['St'])} "
+            f"{mat_tok(f['Str'])} {mat_tok(f['Sh'])} {mat_tok(f['Zt'])} {mat_tok(f['Zh'])}")
+
+
+def dmdc_tag(f):
+    return {'kind': 'dmdc', 'r_hat': f['rh'], 'r_tld': f['rt'], 'p_theta': f['pt'], 'p_upsilon': f['pu'], 'alpha': f['alpha']}
